@@ -104,6 +104,8 @@ def verify_unit(reg, contract, tier="quick"):
         ex.loop_specs = contract.loops
         ex.loop_ordinal = 0
         res.covers.append(("requires-satisfiable", list(state.pc)))
+        if contract.ghost_entry:
+            run_ghost_code(ex, state, contract.ghost_entry)
         outs = ex.exec_block(state, fi.node.body)
         n_normal = 0
         for o in outs:
@@ -145,6 +147,31 @@ def verify_unit(reg, contract, tier="quick"):
     reg.current = None
     res.time = time.time() - t0
     return res, ex
+
+
+def run_ghost_code(ex, state, stmts):
+    """ghost statements from the sidecar (assignments to ghost.* only), executed in the unit's entry state"""
+    src = "\n".join(stmts)
+    tree = ast.parse(src)
+    for n in ast.walk(tree):
+        if isinstance(n, (ast.Assign, ast.AugAssign)):
+            tg = n.targets if isinstance(n, ast.Assign) else [n.target]
+            for t in tg:
+                root = t
+                while isinstance(root, (ast.Attribute, ast.Subscript)):
+                    root = root.value
+                if not (isinstance(root, ast.Name) and root.id == "ghost"):
+                    raise Unsupported("ghost code may only assign to ghost.*")
+        elif isinstance(n, ast.Call) and not (isinstance(n.func, ast.Attribute) and isinstance(n.func.value, ast.Attribute)
+                                                and isinstance(n.func.value.value, ast.Name) and n.func.value.value.id == "ghost"):
+            if not (isinstance(n.func, ast.Name) and n.func.id in ("len", "be16")):
+                raise Unsupported("ghost code may only call methods of ghost fields")
+    state.frame.locals["ghost"] = state.ghost
+    outs = ex.exec_block(state, tree.body)
+    if len(outs) != 1 or outs[0].kind != "normal":
+        raise Unsupported("ghost code must be total")
+    state.become(outs[0].state)
+    state.frame.locals.pop("ghost", None)
 
 
 def _digest(text):
